@@ -13,3 +13,4 @@ pub fn naive_find(p: &[u8], t: &[u8]) -> Vec<usize> {
     }
     v
 }
+pub mod align;
